@@ -22,7 +22,9 @@ def names(maxlen):
 def mk_report(rid, fmt, group_paths, args, base_dir, cuts=None, ts_ms=1700000000123, offset=3600):
     groups = []
     for i, paths in enumerate(group_paths):
-        groups.append({"len": 100 - i, "hash": "%032x" % (0xabcdef00 + i), "paths": [p.hex() for p in paths]})
+        # hashes of 128, 256 and 512 bits (metro / sha256 / sha512), by turns
+        hexlen = (32, 64, 128)[(rid + i) % 3]
+        groups.append({"len": 100 - i, "hash": ("%032x" % (0xabcdef00 + i)).rjust(hexlen, "9"), "paths": [p.hex() for p in paths]})
     total = sum(len(p) for p in group_paths)
     return {"id": rid, "fmt": fmt, "ts_ms": ts_ms, "offset": offset, "command": [a.hex() for a in args], "base_dir": base_dir.hex(), "groups": groups,
             "stats": [len(groups), total, total * 100, max(total - len(groups), 0), 77, 0, 0], "cuts": cuts or []}
